@@ -781,6 +781,7 @@ class X12ContextReader(object):
         """
         cur_tree = None
         cur_data_node = None
+        icvn = fic = vriic = tspc = cur_map = None
         for seg in self.src:
             #find node
             orig_node = self.x12_map_node
@@ -827,6 +828,10 @@ class X12ContextReader(object):
                         self._reset_counter_to_isa_counts()
                     #self._reset_gs_counts(cur_map)
                     self._reset_counter_to_gs_counts()
+                    if cur_map is None:
+                        # the index answered with the control map itself (GS01/GS08 empty)
+                        raise pyx12.errors.EngineError("Map not found.  icvn=%s, fic=%s, vriic=%s" %
+                                                       (icvn, fic, vriic))
                     tpath = '/ISA_LOOP/GS_LOOP/GS'
                     self.x12_map_node = cur_map.getnodebypath(tpath)
                     #self.walker.forceWalkCounterToLoopStart('/ISA_LOOP/GS_LOOP', '/ISA_LOOP/GS_LOOP/GS')
